@@ -94,7 +94,15 @@ def main():
         rec['demo_changed_output'] = out1[-300:]
         env = dict(os.environ, T4GC_REPO=changed)
         b = sh([os.path.join(HERE, 'tools', 'baseline.py')], env=env)
-        rec['baseline_on_changed'] = b.stdout.strip().split('\n')[0]
+        for _retry in range(2):
+            if b.returncode == 0:
+                break
+            # retries: the suite contains unseeded Hypothesis tests that
+            # occasionally fail on the unchanged tree too
+            rec.setdefault('baseline_failed_attempts', []).append(
+                b.stdout.strip()[-300:])
+            b = sh([os.path.join(HERE, 'tools', 'baseline.py')], env=env)
+        rec['baseline_on_changed'] = b.stdout.strip()[-300:]
         rec['baseline_ok'] = b.returncode == 0
         rec['checks'] = {}
         for pid in props:
